@@ -531,6 +531,12 @@ class Fn:
 
 def translate(sigpath, repo):
     sig = json.load(open(sigpath))
+    if sig.get('mode') == 'collapse':   # second statement subset (tools/py2v_part/collapse.py)
+        sys.modules.setdefault('main', sys.modules[__name__])
+        if HERE not in sys.path:
+            sys.path.insert(0, HERE)
+        import collapse
+        return collapse.translate(sig, repo)
     raw = open(os.path.join(repo, sig['source']), 'rb').read()
     tree = ast.parse(raw.decode('utf8'))
     cls = [n for n in tree.body if isinstance(n, ast.ClassDef) and n.name == sig['class']]
